@@ -19,6 +19,7 @@ class Branch:
     closure: Set[str] = field(default_factory=set)  # class keys matched incl. subclasses (isinstance)
     literals: Set[object] = field(default_factory=set)  # x == lit / x in (lits)
     parsed: bool = False
+    module: Optional[Module] = None
 
     def classes(self, repo: Repo) -> Set[str]:
         """Set of class keys this branch's test accepts (closure expanded)."""
@@ -112,6 +113,34 @@ def _type_subject(expr: ast.expr) -> Optional[str]:
     return None
 
 
+def _container_elements(m: Module, at: ast.AST, ref: ast.expr) -> Optional[List[ast.expr]]:
+    """elements (dict keys / list, tuple, set members) of the literal table that `ref` (`self.NAME`, `cls.NAME`, `NAME`) is bound to at
+    class level (of the class enclosing `at`) or module level; None if it is not such a table"""
+    name = None
+    scope_bodies: List[List[ast.stmt]] = []
+    if isinstance(ref, ast.Attribute) and isinstance(ref.value, ast.Name) and ref.value.id in ("self", "cls"):
+        name = ref.attr
+        p = getattr(at, "_parent", None)
+        while p is not None and not isinstance(p, ast.ClassDef):
+            p = getattr(p, "_parent", None)
+        if p is not None:
+            scope_bodies.append(p.body)
+    elif isinstance(ref, ast.Name):
+        name = ref.id
+        scope_bodies.append(m.tree.body)
+    if name is None:
+        return None
+    for body in scope_bodies:
+        for st in body:
+            if isinstance(st, ast.Assign) and any(isinstance(t, ast.Name) and t.id == name for t in st.targets):
+                v = st.value
+                if isinstance(v, ast.Dict):
+                    return [k for k in v.keys if k is not None]
+                if isinstance(v, (ast.List, ast.Tuple, ast.Set)):
+                    return list(v.elts)
+    return None
+
+
 def parse_test(repo: Repo, m: Module, test: ast.expr, br: Branch) -> bool:
     """Fill ``br`` from ``test``.  Returns False if the test is not a class/literal classification."""
     if isinstance(test, ast.BoolOp) and isinstance(test.op, ast.Or):
@@ -132,6 +161,11 @@ def parse_test(repo: Repo, m: Module, test: ast.expr, br: Branch) -> bool:
     if isinstance(test, ast.Compare) and len(test.ops) == 1:
         left, op, right = test.left, test.ops[0], test.comparators[0]
         ts = _type_subject(left)
+        if ts is not None and isinstance(op, ast.In) and isinstance(right, (ast.Name, ast.Attribute)):
+            # membership in a class-level / module-level table of classes: `type(op) in self._table`
+            elts = _container_elements(m, test, right)
+            if elts is not None:
+                right = ast.Tuple(elts=elts, ctx=ast.Load())
         if ts is not None and isinstance(op, (ast.Is, ast.Eq, ast.In)):
             keys = _class_keys(repo, m, right)
             if keys is None:
